@@ -92,6 +92,7 @@ Record TInv (s : tst) : Prop := {
   ti_alive : b2n (alive s) = cnt isV4 (thr s);
   ti_arun : b2n (arun s) <= cnt isV4 (thr s);
   ti_stop : cnt isH1 (thr s) <= b2n (astop s);
+  ti_open : cnt isV1 (thr s) + cnt isV2 (thr s) <= b2n (negb (t_closed s));
   ti_wait : forall i g, In (i, H2 g) (thr s) ->
               g <= tgen s /\
               (tfin s < g -> 1 <= cnt isV5 (thr s) \/ (1 <= cnt isV4 (thr s) /\ (1 <= b2n (astop s) \/ b2n (arun s) = 0)))
@@ -99,7 +100,7 @@ Record TInv (s : tst) : Prop := {
 
 Lemma tinv_init : TInv tinit.
 Proof.
-  constructor; simpl; try reflexivity; try tauto; try lia; try discriminate.
+  constructor; simpl; try reflexivity; try tauto; try lia; try discriminate; try (unfold cnt; simpl; lia).
   constructor.
 Qed.
 
@@ -164,7 +165,7 @@ Ltac split_conds St :=
 
 Lemma tinv_step s l s' o : TInv s -> tstep s l = Some (s', o) -> TInv s'.
 Proof.
-  intros I St. destruct I as [ND FR BO CL RU GE IN PO AL AR SP WT].
+  intros I St. destruct I as [ND FR BO CL RU GE IN PO AL AR SP OP WT].
   destruct l as [k|id|]; simpl in St.
   - (* spawn *)
     inversion St; subst; clear St.
@@ -253,6 +254,18 @@ Proof.
   rewrite B in BO. rewrite P in PO. simpl in *. destruct (t_shut s); simpl in *; [split; auto; lia | lia].
 Qed.
 
+(* a closed server never gets past the tests of serve_forever again: no thread sits between the __is_closed test and
+   the start of a run, and a serve_forever thread that takes its first lock is refused with ServerClosedError *)
+Lemma closed_refuses_threads s :
+  treachable s -> t_closed s = true ->
+  cnt isV1 (thr s) + cnt isV2 (thr s) = 0 /\
+  (forall i rest, ttake i (thr s) = Some (V0, rest) -> close_l s = None ->
+     exists s', tstep s (TStep i) = Some (s', [(i, TClosed)])).
+Proof.
+  intros R C. apply tinv_reachable in R. pose proof (ti_open s R) as OP. rewrite C in OP. simpl in OP. split; [lia|].
+  intros i rest Tk F. simpl. rewrite Tk. simpl. rewrite F. simpl. rewrite C. simpl. eexists. reflexivity.
+Qed.
+
 (* ---------- deadlock freedom (guarded shutdown) ---------- *)
 Definition tenabled (s : tst) : Prop := (exists id, tstep s (TStep id) <> None) \/ tstep s TAsyncEnd <> None.
 
@@ -312,6 +325,8 @@ Proof.
   destruct (boot_l s) as [h|] eqn:B; [eapply boot_holder_progress; eauto|].
   pose proof (ti_boot s I) as BO. rewrite B in BO. simpl in BO.
   destruct pc.
+  - (* Vc *) left. exists i. apply (step_of s i Vc I Hin). intros; simpl.
+    destruct (negb serve_closed_check_under_lock && t_closed s); discriminate.
   - (* V0 *) destruct (close_l s) as [h|] eqn:C; [eapply close_holder_progress; eauto|].
     left. exists i. apply (step_of s i V0 I Hin). intros; simpl. rewrite C. simpl. destruct (t_closed s); discriminate.
   - (* V1 *) left. exists i. apply (step_of s i V1 I Hin). intros; simpl. rewrite B. simpl. destruct (t_shut s); discriminate.
